@@ -31,7 +31,7 @@ ASSUMPTIONS = [
 REAL_VS_STUB = "real: all mici matrix classes, numpy/scipy; stub: none (lazy caches dropped where a constructor would have left them empty)"
 WALL_CAP_S = {"quick": 300, "thorough": 3000}
 MIN_EVALUATIONS = {"quick": 500, "thorough": 5000}
-N = {"quick": 1600, "thorough": 60000}
+N = {"quick": 4000, "thorough": 100000}
 HIST_PER_SCN = 4
 
 
@@ -67,6 +67,7 @@ def run_scenario(scn):
         stats["lazy_drops"] += m.lazy_drops
         stats["write_attempts"] += m.write_attempts
         stats["writes_refused"] += m.writes_refused
+        stats["probe_op_rejected"] = stats.get("probe_op_rejected", 0) + getattr(m, "probe_op_rejected", 0)
         for k, v in m.op_counts.items():
             stats["op_counts"][k] = stats["op_counts"].get(k, 0) + v
         for b in m.pool:
